@@ -15,7 +15,10 @@ inductive Escapes (P : Prog) (s : Site) : Fn → Prop
   | pcall {g : Fn} {r : Row} {e : PEdge} : Escapes P s g → r ∈ P.rows → r.fn = g → e ∈ r.pcallers →
       e.passes P.hier s.ty = true → Escapes P s e.caller
 
-/-- the process terminates abnormally through `s`: the exception leaves an entry point -/
+/-- the exception raised at `s` leaves an entry point.  The entry points of the generated table are `main` and static
+initialisation (leaving them is `std::terminate`: abnormal termination) and the analysis API `CppCheck::check`,
+`CppCheck::checkBuffer`, `CppCheck::analyseWholeProgram` (leaving them means that a problem with the input was not
+turned into a finding: the run ends in the last-resort handler of `main`). -/
 def Aborts (P : Prog) (s : Site) : Prop := ∃ e ∈ P.entries, Escapes P s e
 
 theorem bitOf_eq_testBit (m f : Nat) : bitOf m f = m.testBit f := by
